@@ -236,6 +236,56 @@ func CmdCheck(args []string) int {
 		}(c)
 	}
 	wg.Wait()
+	// second chance: an obligation no solver decided (unknown / timeout, never a
+	// "sat") is retried alone, with four times the budget and little
+	// competition for the cores; slow quantified goals are the unstable ones
+	{
+		type redo struct {
+			fr *FuncResult
+			i  int
+		}
+		var redos []redo
+		for _, j := range jobs {
+			if j.fr.GenErr != "" {
+				continue
+			}
+			for i, o := range j.fr.Obls {
+				if !o.Cover && !o.Discharged() && o.Result != "sat" {
+					redos = append(redos, redo{j.fr, i})
+				}
+			}
+		}
+		if len(redos) > 0 && len(redos) <= 40 {
+			sem2 := make(chan struct{}, 4)
+			for k, rd := range redos {
+				wg.Add(1)
+				sem2 <- struct{}{}
+				go func(k int, rd redo) {
+					defer wg.Done()
+					defer func() { <-sem2 }()
+					o := rd.fr.Obls[rd.i]
+					f := filepath.Join(workDir, fmt.Sprintf("%s.redo%d.smt2", sanitize(rd.fr.Func), k))
+					os.WriteFile(f, []byte(rd.fr.Ctx.Script(map[int]bool{rd.i: true})), 0o644)
+					for _, sv := range Solvers {
+						res, dur := runSolver(sv, f, 1, timeout*4)
+						mu.Lock()
+						solverTime[sv.Name] += dur.Milliseconds()
+						mu.Unlock()
+						o.TimeMs += dur.Milliseconds()
+						if res[0] == "unsat" {
+							o.Result, o.Solver = "unsat", sv.Name+"(retry)"
+							return
+						}
+						if res[0] == "sat" {
+							o.Result, o.Solver = "sat", sv.Name
+							return
+						}
+					}
+				}(k, rd)
+			}
+			wg.Wait()
+		}
+	}
 	solveS := time.Since(solveStart).Seconds()
 
 	// ---- classify ----------------------------------------------------------------
